@@ -166,6 +166,11 @@ func genSearchOutcome(t *rapid.T, okPct int, mode int) int {
 	}
 	k := rapid.IntRange(0, 19).Draw(t, "skind")
 	switch {
+	case mode == 4 && k < 12:
+		if k >= 5 { // "all kinds": more than half of the failing hosts answer with a code
+			return []int{sWantsOld, sTooManyFrac, sTooManyUniq, sWantsOld, sTooManyFrac, sWantsOldErr, sTooManyFrac}[k-5]
+		}
+		return sErr
 	case k < 10:
 		return sErr
 	case k < 12:
@@ -206,7 +211,7 @@ func genCase(t *rapid.T) Case {
 	c.Docs = rapid.IntRange(0, 4).Draw(t, "op") == 4
 	hs := rapid.IntRange(1, 3).Draw(t, "hot_shards")
 	hr := rapid.IntRange(1, 3).Draw(t, "hot_replicas")
-	mode := []int{0, 0, 0, 1, 1, 2, 3, 4}[rapid.IntRange(0, 7).Draw(t, "mode")]
+	mode := []int{0, 0, 0, 1, 1, 2, 3, 4, 4}[rapid.IntRange(0, 8).Draw(t, "mode")]
 	cs := []int{0, 0, 1, 2, 3}[rapid.IntRange(0, 4).Draw(t, "cold_shards")]
 	if mode == 1 && cs == 0 {
 		cs = rapid.IntRange(0, 3).Draw(t, "cold_shards_aged")
